@@ -90,6 +90,9 @@ def make_workbook(rng, n_susp, n_inn):
         if text.startswith('=') and rng.random() < 0.4:
             # the same formula text entered as an array formula: openpyxl hands it over as an object carrying the text
             text = ArrayFormula(wbspec.a1(row, col), text)
+        elif text.startswith('=') and rng.random() < 0.5:
+            # ... or typed with a leading apostrophe: a TEXT cell whose text starts with = (it is scanned like any other text)
+            text = wbspec.TextCell(text)
         sheets[s][wbspec.a1(row, col)] = text
         planted[(s, row, col)] = frags
     # the same suspicious text again: in the same row, in the same column, at the same address of another sheet
